@@ -158,6 +158,7 @@ def _worker_chunk(args):
         for i in indices:
             seed = derive_seed(batch_seed, engine_name, config, i)
             rng = random.Random(seed)
+            rng.run_index = i  # engines may stratify small batches by index
             plan = _engine.gen_plan(rng, config, tier, prop)
             plan["seed"] = seed
             plan["index"] = i
